@@ -8,7 +8,7 @@ Arr       a pure-Python Sequence (the library accepts any Sequence) whose slicin
 """
 from __future__ import annotations
 
-from collections.abc import Sequence
+from collections.abc import Mapping, Sequence
 from typing import Any, List, Optional, Tuple
 
 
@@ -124,3 +124,36 @@ def validate_pyslice() -> Optional[str]:
                     if PySlice(other, big, c).indices(n) != slice(other, big, c).indices(n):
                         return f"PySlice big stop {other},{big},{c},{n}"
     return None
+
+
+class Obj(Mapping):
+    """A JSON object as a pure-Python Mapping over (name, value) pairs.
+
+    Lookup is a linear scan with ==, so a *symbolic* member name never has to be hashed
+    (a real dict realises a symbolic key to one concrete string)."""
+
+    def __init__(self, pairs: List[Tuple[Any, Any]]) -> None:
+        self.pairs = list(pairs)
+
+    def __getitem__(self, key: Any) -> Any:
+        for k, v in self.pairs:
+            if type(k) is type(key) and k == key:
+                return v
+            if isinstance(k, str) and isinstance(key, str) and k == key:
+                return v
+        raise KeyError(key)
+
+    def __iter__(self):  # noqa: ANN204
+        return iter([k for k, _ in self.pairs])
+
+    def __len__(self) -> int:
+        return len(self.pairs)
+
+    def __contains__(self, key: object) -> bool:
+        for k, _ in self.pairs:
+            if isinstance(k, str) and isinstance(key, str) and k == key:
+                return True
+        return False
+
+    def __repr__(self) -> str:
+        return f"Obj({self.pairs!r})"
